@@ -25,6 +25,7 @@ EXPLANATION = (
     "scalar attributes by assignment."
 )
 NOT_DECIDED = (
+    "(R-15.2 decides one structural necessary condition of the classification clause: 0.0 is a legal interface) "
     "length arithmetic of paste_paths, truncation at the limit, agreement of start/end/cross "
     "classification with extreme values - all value-level"
 )
@@ -132,9 +133,16 @@ def r151(ctx):
             ctx.bad(rid, r, "System.copy does not return a new object: copies of a path alias the original's frames")
 
 
+def r152(ctx):
+    from .shared import numeric_option_truthiness
+    numeric_option_truthiness(ctx, "R-15.2", [PATH], "start/end classification would use the wrong interface when an interface is exactly 0.0")
+
+
 def run(ctx):
+    ctx.rule("R-15.2", "optional interface parameters of the classification functions are tested with `is None`, never by truthiness (an interface at 0.0 is a legal value)", floor=2)
     ctx.rule("R-15.1", "copy / reverse / += add fresh frame copies; reverse mutates only the new path; System.copy returns a new object; flag toggle is an involution", floor=10)
     ctx.attempt(r151, ctx)
+    ctx.attempt(r152, ctx)
 
 
 VARIANTS = [
@@ -145,6 +153,9 @@ VARIANTS = [
     B("c15-flag-set-constant", PATH, "        system.vel_rev = not system.vel_rev", "        system.vel_rev = True", "R-15.1"),
     B("c15-flip-unconditional", PATH, "            if rev_v:\n                self.reverse_velocities(new_point)", "            self.reverse_velocities(new_point)", "R-15.1"),
     B("c15-reverse-forward-order", PATH, "        for phasepoint in reversed(self.phasepoints):\n            new_point", "        for phasepoint in self.phasepoints:\n            new_point", "R-15.1"),
+    B("c15-right-default-by-truthiness", PATH, "        if right is None:\n            right = left\n        assert left <= right\n\n        if self.phasepoints[-1]", "        right = right or left\n        assert left <= right\n\n        if self.phasepoints[-1]", "R-15.2", control=True, why="seeded C15_a"),
+    B("c15-right-default-if-not", PATH, "        if right is None:\n            right = left\n        assert left <= right\n        if self.phasepoints[0]", "        if not right:\n            right = left\n        assert left <= right\n        if self.phasepoints[0]", "R-15.2"),
+    K("c15-keep-right-default-ifexp", PATH, "        if right is None:\n            right = left\n        assert left <= right\n\n        if self.phasepoints[-1]", "        right = left if right is None else right\n        assert left <= right\n\n        if self.phasepoints[-1]"),
     K("c15-keep-copy-inline", PATH, "            new_point = phasepoint.copy()\n            if rev_v:\n                self.reverse_velocities(new_point)\n            new_path.append(new_point)", "            new_point = phasepoint.copy()\n            new_path.append(new_point)\n            if rev_v:\n                self.reverse_velocities(new_point)"),
     K("c15-keep-system-copy-direct", SYSTEM, "        system_copy = copy(self)\n        return system_copy", "        return copy(self)"),
 ]
